@@ -1,9 +1,9 @@
 package harness
 
 import (
-	"fmt"
 	"io"
 	"net"
+	"strconv"
 	"sync"
 	"syscall"
 	"time"
@@ -39,27 +39,39 @@ type dir struct {
 	total   int64
 }
 
+//go:norace
 func newDir(name string, capacity int) *dir {
 	return &dir{name: name, cap: capacity, rwake: make(chan struct{}, 1), wwake: make(chan struct{}, 1)}
 }
 
+//go:norace
 func sig(c chan struct{}) {
+	simrt.RaceDisable()
 	select {
 	case c <- struct{}{}:
 	default:
 	}
+	simrt.RaceEnable()
 }
 
 type timeoutErr struct{}
 
-func (timeoutErr) Error() string   { return "i/o timeout" }
-func (timeoutErr) Timeout() bool   { return true }
+//go:norace
+func (timeoutErr) Error() string { return "i/o timeout" }
+
+//go:norace
+func (timeoutErr) Timeout() bool { return true }
+
+//go:norace
 func (timeoutErr) Temporary() bool { return true }
 
 type simAddr string
 
+//go:norace
 func (a simAddr) Network() string { return "sim" }
-func (a simAddr) String() string  { return string(a) }
+
+//go:norace
+func (a simAddr) String() string { return string(a) }
 
 // Net owns every simulated connection of a run.
 type Net struct {
@@ -69,7 +81,10 @@ type Net struct {
 	conns []*Conn
 }
 
-func (n *Net) lock()   { simrt.RaceDisable(); n.mu.Lock() }
+//go:norace
+func (n *Net) lock() { simrt.RaceDisable(); n.mu.Lock() }
+
+//go:norace
 func (n *Net) unlock() { n.mu.Unlock(); simrt.RaceEnable() }
 
 // ConnPlan shapes and injects faults into one endpoint (drawn from the tapes by the scenario).
@@ -99,11 +114,13 @@ type Conn struct {
 }
 
 // Pipe creates a connection; a and b are its two endpoints.
+//
+//go:norace
 func (n *Net) Pipe(name string, capAB, capBA int) (a, b *Conn) {
 	n.lock()
 	defer n.unlock()
 	n.nconn++
-	id := fmt.Sprintf("%s#%d", name, n.nconn)
+	id := name + "#" + strconv.Itoa(n.nconn)
 	ab := newDir(id+":a>b", capAB)
 	ba := newDir(id+":b>a", capBA)
 	a = &Conn{n: n, id: id + ".a", in: ba, out: ab, closeCh: make(chan struct{})}
@@ -112,10 +129,13 @@ func (n *Net) Pipe(name string, capAB, capBA int) (a, b *Conn) {
 	return
 }
 
+//go:norace
 func (c *Conn) ID() string { return c.id }
 
+//go:norace
 func errClosed(op string) error { return &net.OpError{Op: op, Net: "sim", Err: net.ErrClosed} }
 
+//go:norace
 func (c *Conn) Read(p []byte) (int, error) {
 	simrt.Yield("net.Read")
 	for {
@@ -184,16 +204,19 @@ func (c *Conn) Read(p []byte) (int, error) {
 			dc = t.C
 			defer t.Stop()
 		}
+		simrt.RaceDisable() // the transport must not order the endpoints' memory accesses
 		select {
 		case <-in.rwake:
 		case <-tc:
 		case <-dc:
 		case <-c.closeCh:
 		}
+		simrt.RaceEnable()
 		simrt.Yield("net.Read'")
 	}
 }
 
+//go:norace
 func (c *Conn) rdone(n int, err error) (int, error) {
 	if c.Plan.OnRead != nil {
 		c.Plan.OnRead(n, err)
@@ -201,6 +224,7 @@ func (c *Conn) rdone(n int, err error) (int, error) {
 	return n, err
 }
 
+//go:norace
 func (c *Conn) wdone(b []byte, n int, err error) (int, error) {
 	if c.Plan.OnWrite != nil {
 		c.Plan.OnWrite(b[:n], err)
@@ -208,6 +232,7 @@ func (c *Conn) wdone(b []byte, n int, err error) (int, error) {
 	return n, err
 }
 
+//go:norace
 func (c *Conn) Write(b []byte) (int, error) {
 	simrt.Yield("net.Write")
 	c.n.lock()
@@ -257,11 +282,13 @@ func (c *Conn) Write(b []byte) (int, error) {
 			defer t.Stop()
 		}
 		c.n.w.Probe("net_write_blocked")
+		simrt.RaceDisable()
 		select {
 		case <-out.wwake:
 		case <-dc:
 		case <-c.closeCh:
 		}
+		simrt.RaceEnable()
 		simrt.Yield("net.Write'")
 		c.n.lock()
 		if c.closed {
@@ -306,11 +333,14 @@ func (c *Conn) Write(b []byte) (int, error) {
 }
 
 // Close closes this endpoint: the peer reads EOF after draining, the peer's writes fail.
+//
+//go:norace
 func (c *Conn) Close() error {
 	simrt.Yield("net.Close")
 	return c.closeWith(false)
 }
 
+//go:norace
 func (c *Conn) closeWith(reset bool) error {
 	c.n.lock()
 	if c.closed {
@@ -320,7 +350,7 @@ func (c *Conn) closeWith(reset bool) error {
 	c.closed = true
 	c.CloseSeq = c.n.w.Sched.NextSeq()
 	c.CloseAt = time.Now()
-	close(c.closeCh)
+	close(c.closeCh) // inside lock(): race sync events are disabled here
 	c.out.wclosed = true
 	if reset {
 		c.out.reset = true
@@ -338,22 +368,32 @@ func (c *Conn) closeWith(reset bool) error {
 	return nil
 }
 
+//go:norace
 func (c *Conn) IsClosed() bool { c.n.lock(); defer c.n.unlock(); return c.closed }
 
-func (c *Conn) LocalAddr() net.Addr  { return simAddr(c.id) }
+//go:norace
+func (c *Conn) LocalAddr() net.Addr { return simAddr(c.id) }
+
+//go:norace
 func (c *Conn) RemoteAddr() net.Addr { return simAddr(c.id + "-peer") }
+
+//go:norace
 func (c *Conn) SetDeadline(t time.Time) error {
 	c.n.lock()
 	c.rdl, c.wdl = t, t
 	c.n.unlock()
 	return nil
 }
+
+//go:norace
 func (c *Conn) SetReadDeadline(t time.Time) error {
 	c.n.lock()
 	c.rdl = t
 	c.n.unlock()
 	return nil
 }
+
+//go:norace
 func (c *Conn) SetWriteDeadline(t time.Time) error {
 	c.n.lock()
 	closed := c.closed
@@ -368,6 +408,8 @@ func (c *Conn) SetWriteDeadline(t time.Time) error {
 // ---- harness-side controls (called by scripted peers; never block) ----
 
 // Inject queues bytes for the peer endpoint to read, as the given segments.
+//
+//go:norace
 func (c *Conn) Inject(segs []seg) {
 	c.n.lock()
 	out := c.out
@@ -388,9 +430,13 @@ func (c *Conn) Inject(segs []seg) {
 }
 
 // Pending reports bytes injected/written towards the peer endpoint and not yet read by it.
+//
+//go:norace
 func (c *Conn) Pending() int { c.n.lock(); defer c.n.unlock(); return c.out.queued }
 
 // PendingUntil is the time the last queued segment towards the peer becomes readable (zero if none).
+//
+//go:norace
 func (c *Conn) PendingUntil() time.Time {
 	c.n.lock()
 	defer c.n.unlock()
@@ -402,9 +448,13 @@ func (c *Conn) PendingUntil() time.Time {
 
 // SetSink makes this endpoint a recorder: everything the peer endpoint writes is
 // handed to f at once (f(nil) = end of stream) instead of being queued for Read.
+//
+//go:norace
 func (c *Conn) SetSink(f func([]byte)) { c.n.lock(); c.in.sink = f; c.n.unlock() }
 
 // Stall makes the recorder stop (true) or resume (false) reading.
+//
+//go:norace
 func (c *Conn) Stall(on bool) {
 	c.n.lock()
 	in := c.in
@@ -423,18 +473,28 @@ func (c *Conn) Stall(on bool) {
 }
 
 // SetCap sets the in-flight capacity of the direction the peer endpoint writes into.
+//
+//go:norace
 func (c *Conn) SetInCap(n int) { c.n.lock(); c.in.cap = n; c.n.unlock() }
 
 // SetGrace sets how many bytes the peer endpoint may still write "successfully" after this endpoint closed.
+//
+//go:norace
 func (c *Conn) SetGrace(n int) { c.n.lock(); c.in.grace = n; c.n.unlock() }
 
 // Abort closes this endpoint abortively (the peer reads ECONNRESET).
+//
+//go:norace
 func (c *Conn) Abort() { c.closeWith(true) }
 
 // CloseNow closes this endpoint without a scheduling point (harness side).
+//
+//go:norace
 func (c *Conn) CloseNow() { c.closeWith(false) }
 
 // InjectReadErr makes the peer endpoint's next Read fail with err.
+//
+//go:norace
 func (c *Conn) InjectReadErr(err error) {
 	c.n.lock()
 	c.out.rerr = err
@@ -443,6 +503,8 @@ func (c *Conn) InjectReadErr(err error) {
 }
 
 // Tap observes every write accepted from this endpoint.
+//
+//go:norace
 func (c *Conn) Tap(f func([]byte)) { c.n.lock(); c.out.tap = f; c.n.unlock() }
 
 // ---- listener ----
@@ -456,10 +518,12 @@ type Listener struct {
 	Accepted int
 }
 
+//go:norace
 func (n *Net) Listen() *Listener {
 	return &Listener{n: n, ch: make(chan net.Conn, 16), closeCh: make(chan struct{}), errs: make(chan error, 4)}
 }
 
+//go:norace
 func (l *Listener) Accept() (net.Conn, error) {
 	simrt.Yield("net.Accept")
 	select {
@@ -476,6 +540,7 @@ func (l *Listener) Accept() (net.Conn, error) {
 	}
 }
 
+//go:norace
 func (l *Listener) Close() error {
 	simrt.Yield("net.ListenerClose")
 	l.n.lock()
@@ -488,10 +553,15 @@ func (l *Listener) Close() error {
 	return nil
 }
 
+//go:norace
 func (l *Listener) IsClosed() bool { l.n.lock(); defer l.n.unlock(); return l.closed }
+
+//go:norace
 func (l *Listener) Addr() net.Addr { return simAddr("listener") }
 
 // Dial creates a connection to the listener and returns the client endpoint.
+//
+//go:norace
 func (l *Listener) Dial(name string, capToServer, capToClient int) (client, server *Conn) {
 	client, server = l.n.Pipe(name, capToServer, capToClient)
 	l.ch <- server
@@ -499,4 +569,6 @@ func (l *Listener) Dial(name string, capToServer, capToClient int) (client, serv
 }
 
 // FailAccept makes the next Accept return err.
+//
+//go:norace
 func (l *Listener) FailAccept(err error) { l.errs <- err }
